@@ -64,7 +64,7 @@ CLAIMS = {
              text="TLC checks partition of unity, non-negativity, linear precision at the Greville points and unit derivative coefficients of the identity spline for orders 0..4, N<=5/8, uniform/geometric/irregular breakpoints, 0..2/4 sub-samples; eval_on_knots (edges, sub-samples, sub-grid), spline values, bspline_derivative and get_greville_points are compared exactly; variable(grid='bspline') under MultipleShooting/DirectCollocation: samples on the control grid and at every refinement equal the Cox-de Boor evaluation of the coefficients, der() is the analytic derivative in physical time, and a grid='bspline' parameter in the ODE reaches the right interval (explicit-Euler gap rows); SplineMethod on integrator chains of length 2..4: every chain member's samples on the control and refined grids equal the derivative splines of the coefficient variables (chain dynamics hold identically), coefficients sit at the Greville times, the path constraint is imposed at every (refined) grid point and boundary constraints once; on three chain problems SplineMethod and MultipleShooting reach the same optimum (solver relation, 1e-5)",
              ref="DESIGN.md section 4 C17"),
  'C19': dict(tech="TLC model checking of ToFunction.tla (call data = imperative data, isolation from later updates) + scenarios replayed: ocp.to_function vs a freshly written OCP driven imperatively",
-             text="TLC enumerates argument lists (parameters p, q; guesses of sampled states/controls), values current when the function is made, later imperative updates and call values, and supplies the data the call must work on; the real function's results are compared (1e-6) with set_value/set_initial/solve/sample on a fresh OCP with exactly that data, for MS/SS/DC and iteration limits 1 and 50 (the limit 1 makes the result depend on the guesses)",
+             text="TLC enumerates argument lists (parameters p, q; guesses of sampled states/controls), values current when the function is made, later imperative updates and call values, and supplies the data the call must work on; the real function's results are compared (1e-6) with set_value/set_initial/solve/sample on a fresh OCP with exactly that data, for MS/SS/DC and iteration limits 0 and 50 (with limit 0 the result is the starting point, i.e. depends on the guesses)",
              ref="DESIGN.md section 4 C19"),
  'C18': dict(tech="Save/Load as Lifecycle actions; TLC-generated histories replayed into rockit",
              text="at every save point of every generated history the object is saved and loaded; the loaded OCP (symbols found through the public accessors) must transcribe to the NLP of a fresh OCP with the specification's declaration, and the original must continue along the history",
